@@ -100,12 +100,18 @@ def run_virtual(case):
     return True, f"ok:{len(exp)}tracks", None
 
 
+# titles whose shape invites special treatment by naming code; the oracle for these cases ignores the file names
+TITLE_SETS = {"dup": ["SAME"], "lr": ["PAD L", "PAD R", "PAD-L", "PAD-R"], "lr_only": ["L", "R", "-L", "-R"],
+              "dots": ["TRK.1", "TRK.2", "TRK.", ".TRK"], "unsafe": ["a/b", "a:b", "..", "a\\b"], "case": ["Trk", "TRK", "trk", "TrK"],
+              "numbered": ["T", "T (2)", "T (2)", "T"]}
+
+
 def run_files(case):
     positions, binlen = case["positions"], case["binlen"]
     tracks = make_tracks(positions, [tuple(o) for o in case["opts"]])
-    if case.get("titles") == "dup":
-        for t in tracks:
-            t["title"] = "SAME"
+    if case.get("titles"):
+        for i, t in enumerate(tracks):
+            t["title"] = TITLE_SETS[case["titles"]][i % len(TITLE_SETS[case["titles"]])]
     with scratch_dir("c03") as d:
         with open(os.path.join(d, "disc.bin"), "wb") as f:
             f.write(Q.bin_bytes(binlen))
@@ -120,8 +126,8 @@ def run_files(case):
     exp = {}
     for t, (a, b) in zip(titles_of(tracks), expected_tracks(positions, binlen)):
         exp[t + ".wav"] = (2, 44100, Q.frames_bytes(a, b - a))
-    if case.get("titles") == "dup":
-        # equal titles: the file names are the tool's business, but there is one file per track and together they
+    if case.get("titles"):
+        # equal / pair-shaped / dotted / unsafe titles: the file names are the tool's business, but there is one file per track and together they
         # hold exactly the track windows
         want = sorted(Q.frames_bytes(a, b - a) for a, b in expected_tracks(positions, binlen))
         got = []
@@ -131,8 +137,8 @@ def run_files(case):
                 return False, "invalid-wav", {"path": p_, "errors": w.errors[:2]}
             got.append(w.data)
         if sorted(got) != want or len(res["reported"]) != len(want):
-            return False, "dup-titles-tracks-lost", {"tracks": len(want), "files": sorted(res["files"]), "reported": res["reported"]}
-        return True, f"files-ok-dup:{len(want)}", None
+            return False, case["titles"] + "-titles-tracks-lost", {"tracks": len(want), "files": sorted(res["files"]), "reported": res["reported"]}
+        return True, f"files-ok-{case['titles']}:{len(want)}", None
     errs = tree.compare_export(exp, res["files"], res["reported"])
     if errs:
         return False, "files-mismatch", {"errors": errs[:3]}
@@ -168,7 +174,9 @@ class Check(CheckBase):
             "thorough) x per-track {one INDEX | INDEX 00+01} x {TITLE | none} under deviation bound 1 x bin length = last "
             "index*2352 + r for r in {0,1,2,3,4,5,2351,2352,2353,4704}, on a virtual position-coded bin through "
             "parse_cue_sheet/from_bin_cue/WAV builder; minute-carry positions 4499/4500/4501; (iii) a subset through real "
-            ".cue/.bin files and the full ls/export run. non-trivial = >=2 tracks, or an MSF carry, or a ragged bin tail")
+            ".cue/.bin files and the full ls/export run, incl. 7 title families whose shape invites special treatment by naming "
+            "code (equal, L/R-pair shaped, bare L/R, dotted, unsafe characters, case-only differences, '(2)'-numbered) judged "
+            "by content only: one file per track, together exactly the track windows. non-trivial = >=2 tracks, or an MSF carry, or a ragged bin tail")
     assumptions = ["bin content is frame-position coded (LE32(k*2654435761)), so any foreign window is visible"]
 
     def shards(self):
@@ -204,10 +212,11 @@ class Check(CheckBase):
                                   "binlen": Q.SECTOR * positions[-1] + r})
         if self.quick:
             files = files[::3]
-        for positions in ([0, 2], [1, 75, 76], [0, 1, 2, 150]):
-            for r in (0, 3):
-                files.append({"kind": "files", "positions": positions, "opts": [["one", True]] * len(positions),
-                              "binlen": Q.SECTOR * positions[-1] + r, "titles": "dup"})
+        for ts in sorted(TITLE_SETS):
+            for positions in ([0, 2], [1, 75, 76], [0, 1, 2, 150]):
+                for r in (0, 3):
+                    files.append({"kind": "files", "positions": positions, "opts": [["one", True]] * len(positions),
+                                  "binlen": Q.SECTOR * positions[-1] + r, "titles": ts})
         out += self.chunk(cases, 150)
         out += self.chunk(files, 8)
         return out
